@@ -6,11 +6,16 @@ Correspondence (model ≈ code), all through the real code of `VERIF_REPO`:
      (`connectionMade`, `feedAll`, `connectionLost`): same events in the same order and the
      same final state (spool, remote settings, closed);
   X/L/D/S  `_extract_message_size`, `_encode_length`, `_decode_message`, `_serialize`
-     (via `TcpConnection._send_message`) vs the Lean functions.
+     (via `TcpConnection._send_message`) vs the Lean functions;
+  P  the sending side of the token interface, `_TCPPooling.send_message` of TCPClient and
+     TCPServer, with requests and responses carrying No-Response values, vs Lean `poolSend`.
 Oracle: an independent RFC 8323 §3.2 / RFC 7252 §3.1 framer (harness/c15_sim.py) reads the
-joined stream and says what the property demands up to the first close; every chunking of a
-stream is judged against that same reading.  A few sessions run with the real TokenManager
-to see pending requests actually fail with a NetworkError on Release/Abort.
+joined stream and says what the property demands; the whole session is judged, including what
+happens after the first close (nothing may be dispatched or written any more), and every
+chunking of a stream is judged against that same reading.  `send_message` is judged against the
+RFC framing of the message handed in (requests keep every option and are not modified).  A few
+sessions run with the real TokenManager to see pending requests actually fail with a
+NetworkError on Release/Abort.
 """
 import itertools
 import warnings
@@ -24,12 +29,17 @@ RULE = ("Streams are built by an independent RFC 8323 framer from message sequen
         "steered onto the 12/13/268/269/65804/65805 body-length boundaries, the option delta/length "
         "boundaries and the max-message-size limit (+-1); malformed frames (TKL>8, option nibble 15, "
         "truncated options, invalid UTF-8, oversize announcements, garbage) are inserted at every "
-        "position (<= 50 % of sessions). Each stream is cut exhaustively into all chunkings when it is "
+        "position (<= 50 % of sessions). Every kind of connection-ending signalling message (critical option in "
+        "CSM/Ping/Pong/Release/Abort, unknown 7.xx code, valid Release/Abort) is followed in the same stream by a "
+        "Ping / request / response / CSM / second such message, as first message and after a valid CSM, whole and in "
+        "every 2-cut. send_message is called with every No-Response value of {absent,0,2,8,16,24,26,127,...} x "
+        "request/response codes of every class x client/server role. Each stream is cut exhaustively into all chunkings when it is "
         "short (<= 11 bytes; 14 in the thorough tier), otherwise whole / single bytes / every 2-cut around the headers / random "
         "cuts. A case is non-trivial when the connection did something beyond its initial CSM; "
         "distinct by (max size, chunk list).")
 TRUSTED = ["fake asyncio.Transport and recording token manager (harness/c15_sim.py); "
-           "asyncio is represented by: no data_received after close(), connection_lost(None) after close()"]
+           "asyncio is represented by: is_closing() is true after close(), no data_received after close(), "
+           "connection_lost(None) after close()"]
 ASSUMPTIONS = ["bytes are delivered in order and unmodified (TCP); only the segmentation varies",
                "option delta/length 65804 in *outgoing* messages is out of model (C01's off-by-one in "
                "_write_extended_field_value)"]
@@ -332,6 +342,55 @@ def boundary_sessions(env):
     return cases
 
 
+def enders():
+    """every kind of signalling message that ends the connection: (name, frame)"""
+    out = []
+    for code, name in ((225, "csm"), (226, "ping"), (227, "pong"), (228, "release"), (229, "abort")):
+        out.append((name + "-crit", o_frame(code, b"", o_body([(1, b"")], b""))))
+        out.append((name + "-crit2", o_frame(code, b"\x02", o_body([(2, b"\x10"), (3, b"a"), (5, b"")], b""))))
+    out.append(("csm-crit-late", o_frame(225, b"", o_body([(2, b"\x04\x00"), (4, b""), (65001, b"z")], b""))))
+    for code in (224, 230, 255):
+        out.append(("unknown-%d" % code, o_frame(code, b"", b"")))
+    out.append(("release", o_frame(228, b"", b"")))
+    out.append(("abort", o_frame(229, b"", b"\xffbye")))
+    out.append(("release-elective", o_frame(228, b"", o_body([(2, b"alt")], b""))))
+    return out
+
+
+def after_close_sessions(env):
+    """a connection-ending signalling message followed in the same stream by something that must
+    not be looked at any more; as first message and after a valid CSM; whole and in every 2-cut"""
+    cases = []
+    followers = [("ping", o_frame(226, b"\x07", b"")),
+                 ("request", o_frame(1, b"\xbb", o_body([(11, b"x")], b""))),
+                 ("response", o_frame(69, b"\xbb", b"\xffhi")),
+                 ("csm", o_frame(225, b"", o_body([(2, b"\x04\x00")], b""))),
+                 ("empty", o_frame(0, b"", b"")),
+                 ("unparsable", b"\x10\x01\xf0"),
+                 ("tkl9", bytes([0x09, 1]) + bytes(9)),
+                 ("oversize", b"\xf0\xff\xff\xff\xff")]
+    ends = enders()
+    for ename, e in ends:
+        for fname, f in followers + [("2nd:" + n, fr) for n, fr in ends]:
+            for pre in (b"", CSM0):
+                stream = pre + e + f
+                cases.append(session_case(DEFAULT_MAX, [stream], tag="after-close"))
+                if fname.startswith("2nd:") and (ename, fname[4:]) not in (("csm-crit", "ping-crit"), ("ping-crit", "csm-crit"),
+                                                                          ("release", "abort"), ("unknown-230", "release")):
+                    # second ending message: the border cut and the whole stream only (the full 2-cut set below)
+                    cases.append(session_case(DEFAULT_MAX, [pre + e, f], tag="after-close"))
+                    continue
+                for cut in range(1, len(stream)):
+                    cases.append(session_case(DEFAULT_MAX, [stream[:cut], stream[cut:]], tag="after-close"))
+    # request + Ping behind the ending message, three frames in one chunk, and byte by byte
+    for ename, e in ends:
+        stream = CSM0 + e + followers[1][1] + followers[0][1]
+        cases.append(session_case(DEFAULT_MAX, [stream], tag="after-close"))
+        cases.append(session_case(DEFAULT_MAX, [CSM0, e + followers[1][1] + followers[0][1]], tag="after-close"))
+        cases.append(session_case(DEFAULT_MAX, [stream[i:i + 1] for i in range(len(stream))], tag="after-close"))
+    return cases
+
+
 def exhaustive_sessions(env):
     """all chunkings of short streams"""
     empty = o_frame(0, b"", b"")
@@ -357,6 +416,19 @@ def exhaustive_sessions(env):
         CSM0 + b"\xd0\x00\x01" + b"\xff" + b"p" * 12,    # body length 13 via extended length: 3+13 = 16 -> too long
         CSM0 + b"\x00\xe6" + get1,                       # unknown signalling code
         CSM0 + b"\xf0\xff\xff\xff\xff",                  # oversize announcement
+        b"\x10\xe1\x10" + ping + get1,                    # rejected CSM, then Ping and request
+        CSM0 + b"\x10\xe4\x10" + get1,                    # Release with critical option, then request
+        CSM0 + b"\x20\xe1\x10\x20" + ping,                # CSM with two critical options, then Ping
+        CSM0 + b"\x00\xe6" + ping + get1,                 # unknown signalling code, then Ping and request
+        CSM0 + rel + ping + get1,                          # Release, then Ping and request
+        CSM0 + b"\x10\xe2\x10" + b"\x10\xe3\x10",         # two offending messages
+        # (well-formed streams, so that sessions ending in an Abort stay below one half)
+        o_frame(225, b"", o_body([(2, b"\x04\x00"), (4, b"")], b"")) + get1 + ping,
+        CSM0 + o_frame(227, b"\x07", b"") + get1 + empty + ping,
+        CSM0 + ping + o_frame(226, b"\x01\x02", b"") + get1,
+        CSM0 + o_frame(225, b"", o_body([(4, b"")], b"")) + resp,
+        CSM0 + o_frame(1, b"", o_body([(11, b"a")], b"")) + resp,
+        CSM0 + o_frame(226, b"", o_body([(2, b"e")], b"")) + get1 + get1,      # elective option on a Ping
     ]
     cases = []
     global N_EXHAUSTIVE
@@ -494,6 +566,74 @@ def s_cases(env):
     return cases
 
 
+NO_RESPONSE_VALUES = [None, 0, 2, 8, 16, 24, 26, 127]
+
+
+def p_cases(env):
+    """messages for `send_message`: every No-Response value x request/response codes x role"""
+    rng = env.rng
+    cases = []
+
+    def mk(code, token, opts, payload, client, tag):
+        cases.append({"kind": "P", "code": code, "token": spec(token), "payload": spec(payload),
+                      "opts": [[n, spec(v)] for n, v in opts], "client": client, "tag": tag})
+
+    def nr_opt(v):
+        return [] if v is None else [(258, v.to_bytes((v.bit_length() + 7) // 8, "big"))]
+    req_codes = [1, 2, 3, 4, 5, 7]
+    resp_codes = [65, 68, 69, 95, 99, 128, 132, 143, 160, 165, 191]
+    for v in NO_RESPONSE_VALUES + [1, 4, 32, 64, 128, 255, 256, 65535]:
+        for client in (True, False):
+            for code in req_codes + resp_codes + [0]:
+                mk(code, b"\x01", [(11, b"x")] + nr_opt(v), b"", client, "no-response-table")
+                mk(code, b"\xaa\xbb", nr_opt(v), b"pl", client, "no-response-table")
+                mk(code, b"", [(6, b"\x01"), (12, b"")] + nr_opt(v) + [(292, b"rt")], b"p" * 13, client, "no-response-table")
+    for _ in range(env.scale(400, 6000)):
+        code, token, opts, payload = gen_message(rng, rng.choice(BODY_BOUNDS[:10]) if rng.random() < 0.3 else None)
+        if code >= 224 or rng.random() < 0.5:
+            code = rng.choice(req_codes + resp_codes)
+        opts = [o for o in opts if o[0] != 258]
+        if rng.random() < 0.7:
+            opts = sorted(opts + nr_opt(rng.choice(NO_RESPONSE_VALUES[1:] + [rng.randrange(256)])), key=lambda o: o[0])
+        mk(code, token, opts, payload, rng.random() < 0.5, "random")
+    return cases
+
+
+def run_P(aiocoap, tcp, case):
+    """`pool.send_message(msg, None)` with msg.remote = a connected TcpConnection of that pool"""
+    events = []
+    pool, conn, transport = sim.make_connection(tcp, DEFAULT_MAX, case["client"], events)
+    conn.connection_made(transport)
+    with warnings.catch_warnings():
+        warnings.simplefilter("ignore")
+        conn.data_received(CSM0)
+        del events[:]
+        msg = build_message(aiocoap, case["code"], unspec(case["token"]), [(n, unspec(v)) for n, v in case["opts"]],
+                            unspec(case["payload"]))
+        msg.remote = conn
+        before = sim.msg_fields(msg)
+        try:
+            pool.send_message(msg, None)
+        except ValueError:
+            return "err", before, sim.msg_fields(msg), None
+        except Exception as e:
+            return "exception:" + type(e).__name__, before, sim.msg_fields(msg), None
+        after = sim.msg_fields(msg)
+    return (sim.render_events(events) or "-"), before, after, list(events)
+
+
+def judge_P(before, after, r, events):
+    code, token, opts, payload = before
+    deltas = [b[0] - a[0] for a, b in zip([(0, b"")] + opts, opts)]
+    if len(token) > 8:
+        return ("", "") if r == "err" else ("message with a %d byte token was sent" % len(token), "tcp-serialize")
+    if any(d >= 65804 for d in deltas) or any(len(v) >= 65804 for _, v in opts):
+        return ("", "")                             # C01's domain (extended field limit)
+    if events is None:
+        return ("send_message failed (%s) for %s" % (r, sim.render_fields(*before)), "tcp-send-event")
+    return sim.oracle_send(before, after, events)
+
+
 def x_cases(env):
     rng = env.rng
     cases = []
@@ -582,13 +722,19 @@ def glue_sessions(env, aiocoap, tcp, rep):
             pipes = []
             for i in range(nreq):
                 code, token, opts, payload = gen_message(rng)
-                msg = build_message(aiocoap, rng.choice([1, 2, 3, 4]), b"", [o for o in opts if o[0] != 258] if code < 224 else [], payload)
+                ropts = [o for o in opts if o[0] != 258] if code < 224 else []
+                if rng.random() < 0.5:
+                    # the client asks the server not to answer (RFC 7967): the option has to reach the server
+                    ropts = sorted(ropts + [(258, bytes([rng.choice([2, 8, 16, 24, 26, 127])]))], key=lambda o: o[0])
+                    rep.count("G:request-with-no-response")
+                msg = build_message(aiocoap, rng.choice([1, 2, 3, 4]), b"", ropts, payload)
+                sent_opts = sim.msg_fields(msg)[2]
                 msg.remote = conn
                 pipe = Pipe(msg, sim._LOG)
                 got = []
                 pipe.on_event(lambda ev, got=got: (got.append(ev), True)[1])
                 tman.request(pipe)
-                pipes.append((msg, got))
+                pipes.append((msg, got, sent_opts))
             case = {"kind": "G", "iteration": it, "seed": env.seed}
             rep.case(case, nontrivial=True, sample_every=200)
             rep.count("G:sessions")
@@ -598,10 +744,15 @@ def glue_sessions(env, aiocoap, tcp, rep):
                 rep.oracle_fail(case, "requests were not written one frame each", key="tcp-glue-write")
                 continue
             bad = False
-            for (msg, got), w in zip(pipes, writes):
+            for (msg, got, sent_opts), w in zip(pipes, writes):
                 fr = sim.o_single_frame(w)
                 if fr is None or fr[0] != int(msg.code) or fr[1] != msg.token or fr[3] != msg.payload:
                     rep.oracle_fail(case, "request written as %s" % w.hex()[:80], key="tcp-glue-write")
+                    bad = True
+                elif fr[2] != sent_opts or sim.msg_fields(msg)[2] != sent_opts:
+                    rep.oracle_fail(case, "request with options %s written with options %s (caller's message now has %s)"
+                                    % (sim.render_fields(0, b"", sent_opts, b""), sim.render_fields(0, b"", fr[2], b""),
+                                       sim.render_fields(0, b"", sim.msg_fields(msg)[2], b"")), key="tcp-send-request-options")
                     bad = True
             if bad:
                 continue
@@ -639,7 +790,7 @@ def glue_sessions(env, aiocoap, tcp, rep):
             elif plain_loss:
                 transport.closed = True
                 conn.connection_lost(rng.choice([None, ConnectionResetError("reset by peer")]))
-        for idx, (msg, got) in enumerate(pipes):
+        for idx, (msg, got, _) in enumerate(pipes):
             if idx == answered:
                 if not (len(got) == 1 and got[0].message is not None and got[0].message.payload == b"ok"):
                     rep.oracle_fail(case, "response was not delivered to the request with its token", key="tcp-glue-response")
@@ -666,7 +817,7 @@ def run(env, rep):
 
     # ---- F: sessions
     corpus = [c for _, c in load_corpus("C15") if c.get("kind") == "F"]
-    cases = corpus + boundary_sessions(env) + exhaustive_sessions(env) + big_sessions(env) \
+    cases = corpus + boundary_sessions(env) + after_close_sessions(env) + exhaustive_sessions(env) + big_sessions(env) \
         + random_sessions(env, env.scale(2000, 60000))
     for c in cases:
         if c["maxsize"] == DEFAULT_MAX:
@@ -796,6 +947,32 @@ def run(env, rep):
             rep.oracle_fail({k: case[k] for k in ("kind", "code", "token", "payload", "opts")}, v, key="tcp-serialize")
     compare(env, rep, ss, lines, impl, what="serialize")
 
+    # ---- P: _TCPPooling.send_message (requests keep No-Response, responses use it as a marker)
+    ps = [c for _, c in load_corpus("C15") if c.get("kind") == "P"] + p_cases(env)
+    lines, impl = [], []
+    for case in ps:
+        r, before, after, events = run_P(aiocoap, tcp, case)
+        code, token, opts, payload = before
+        lines.append("C15 P %d %s %s %s" % (code, spec(token), spec(payload), " ".join("%d:%s" % (n, spec(v)) for n, v in opts)))
+        impl.append(r)
+        small = {k: case[k] for k in ("kind", "code", "token", "payload", "opts", "client")}
+        rep.case(small, nontrivial=r not in ("err",), sample_every=1500)
+        nr = next((int.from_bytes(v, "big") for n, v in opts if n == 258), None)
+        rep.count("P:%s:%s:%s" % ("client" if case["client"] else "server",
+                                  "response" if 64 <= code < 192 else "request" if 1 <= code < 32 else "other",
+                                  "written" if r.startswith("W") else "dropped" if r == "-" else r.split(":")[0]))
+        rep.count("P:no-response=%s" % ("absent" if nr is None else nr if nr in NO_RESPONSE_VALUES else "other"))
+        v, key = judge_P(before, after, r, events)
+        if v:
+            rep.oracle_fail(small, v, key=key)
+    compare(env, rep, ps, lines, impl, what="send_message")
+    if not rep.disagreements and not rep.oracle_failures:
+        for need in ["P:%s:%s:%s" % (role, kind, res) for role in ("client", "server")
+                     for kind, res in (("request", "written"), ("response", "written"), ("response", "dropped"))] \
+                + ["P:no-response=%s" % ("absent" if v is None else v) for v in NO_RESPONSE_VALUES] + ["F:tag=after-close"]:
+            if not rep.hist.get(need):
+                raise HarnessError("generator never reached " + need)
+
     # ---- G: glue with the real TokenManager (oracle only)
     glue_sessions(env, aiocoap, tcp, rep)
 
@@ -869,6 +1046,9 @@ def replay(env, case):
     if k == "S":
         r, fields, blob = run_S(aiocoap, tcp, case)
         return judge_S(fields, r, blob)
+    if k == "P":
+        r, before, after, events = run_P(aiocoap, tcp, case)
+        return judge_P(before, after, r, events)[0]
     if k == "G":
         from common import Report, Env
         rep = Report("C15")
